@@ -1,11 +1,11 @@
 package main
 
 import (
-	"golang.org/x/tools/go/ssa"
-	"regexp"
 	"fmt"
 	"go/constant"
 	"go/types"
+	"golang.org/x/tools/go/ssa"
+	"regexp"
 	"sort"
 	"strings"
 )
@@ -132,4 +132,6 @@ func (h *HeapState) keys() []string {
 	return ks
 }
 
-func compSortSuffix(s string) string { return strings.NewReplacer("(", "", ")", "", " ", "_").Replace(s) }
+func compSortSuffix(s string) string {
+	return strings.NewReplacer("(", "", ")", "", " ", "_").Replace(s)
+}
